@@ -340,6 +340,10 @@ func gen(seed uint64, tier string, idx int) sim.CaseI {
 			c.FailMode = []string{"error", "abort"}[kr.Intn(2)]
 		case 3:
 			c.CancelAfter = kr.Range(1, 2*len(m.order))
+			// With the controller parked in UpdateFunc a cancellation can become ready together with a
+			// queued result, and which of the two its select takes is Go's random choice, not the
+			// simulator's: the two fault kinds are not combined.
+			c.UpdatePark = 0
 		}
 		if kr.Bool(0.3) {
 			c.Stall = append(c.Stall, m.order[kr.Intn(len(m.order))])
